@@ -124,6 +124,11 @@ func (i *FSMInstance) Do(event fsm.Event, args ...interface{}) (result *fsm.Resp
 
 		dump, dumpErr = i.dump.Marshal()
 		if dumpErr != nil {
+			// a round that cannot be written down must not be taken for a successful step
+			// (an empty dump would be stored and could never be loaded again)
+			if err == nil {
+				err = fmt.Errorf("failed to dump the machine state: %w", dumpErr)
+			}
 			return result, []byte{}, err
 		}
 	}
